@@ -31,20 +31,39 @@ ALPHABET = collections.OrderedDict([
     ("dangling-symlink", ("symlink",)),
     ("missing", ("missing",)),
 ])
+# contents for the ISO-2022-JP variant of the machine: escape sequences make the byte length of a file
+# independent of the length of its text (ESC ( J = JIS-Roman, ESC ( B = ASCII, ESC $ B = JIS X 0208)
+ENC_VARIANT = "ISO-2022-JP"
+ENC_ALPHABET = collections.OrderedDict([
+    ("formatted", b"a;\n"),
+    ("jis-roman-escapes", b"\x1b(Ja ;b;\x1b(B\n"),
+    ("redundant-ascii-escapes", b"\x1b(Ba;b;\x1b(B"),
+    ("kana-in-comment", b"a  ; //\x1b$B$\"$$\x1b(B\n"),
+    ("longer", b"a;b;"),
+    ("truncated-escape", b"a ;\x1b$"),
+])
 PAIR_ALPHABET = ["formatted", "shorter-by-many", "longer", "invalid-utf8", "utf16le-bom", "missing"]
 
 
 class Machine:
-    def __init__(self, sb, fam):
+    def __init__(self, sb, fam, encoding=None):
         self.sb = sb
         self.fam = fam
         self.fcache = {}
         self.d = sb.path("d")
+        self.encoding = encoding
+        self.cfg = sb.empty_cfg
+        if encoding:
+            # the same machine under a configured legacy encoding (decoded length and byte length are
+            # then unrelated: escape sequences, multi-byte characters)
+            self.cfg = sb.path("enc.toml")
+            with open(self.cfg, "w") as fh:
+                fh.write(f'encoding = "{encoding}"\n')
 
     def F(self, b):
         """(ok, bytes) of formatting b through stdin->stdout"""
         if b not in self.fcache:
-            rc, out, err = cli.fmt_stdin(b, cfg=self.sb.empty_cfg)
+            rc, out, err = cli.fmt_stdin(b, cfg=self.cfg)
             self.fcache[b] = (rc == 0, out, rc)
         return self.fcache[b]
 
@@ -132,11 +151,12 @@ def describe(state):
 
 def explore_part(args):
     """BFS from a subset of the initial states (one sandbox per worker process)"""
-    init, depth, part = args
+    init, depth, part = args[:3]
+    encoding = args[3] if len(args) > 3 else None
     fam = PyFamily("c16:cli-history-machine", transitions_per_case=1)
     forms = ["path", "dir", "files-from", "glob"]
     with cli.Sandbox(f"c16-{part}") as sb:
-        m = Machine(sb, fam)
+        m = Machine(sb, fam, encoding)
         seen = {canon(s): 0 for s in init}
         frontier = collections.deque((s, 0, []) for s in init)
         states = 0
@@ -147,7 +167,7 @@ def explore_part(args):
             for form in forms:
                 subsets = [names_all] if form in ("dir", "glob") else ([[n] for n in names_all] + ([names_all] if len(names_all) > 1 else []))
                 for names in subsets:
-                    for mode in ("check", "stdout", "files"):
+                    for mode in (("check", "files") if encoding else ("check", "stdout", "files")):
                         # multi-file operations are also run on a single worker thread (one read buffer
                         # for all files, in a deterministic order)
                         if len(names) > 1 and form != "glob":
@@ -197,8 +217,11 @@ def explore(tier, seed):
             init.append((("x.pas", ALPHABET[a]), ("y.pas", ALPHABET[b])))
     nparts = 16
     parts = [(init[i::nparts], depth, i) for i in range(nparts)]
+    enc_init = [(("x.pas", c),) for c in ENC_ALPHABET.values()]
+    enc_init += [(("x.pas", ENC_ALPHABET[a]), ("y.pas", ENC_ALPHABET[b])) for a in ("jis-roman-escapes", "truncated-escape") for b in ("redundant-ascii-escapes", "formatted")]
+    parts += [(enc_init[i::4], depth, 100 + i, ENC_VARIANT) for i in range(4)]
     fam = PyFamily("c16:cli-history-machine", transitions_per_case=1)
-    with concurrent.futures.ProcessPoolExecutor(nparts) as ex:
+    with concurrent.futures.ProcessPoolExecutor(16) as ex:
         for r in ex.map(explore_part, parts):
             st = r["stats"]
             fam.stats["evaluations"] += st["evaluations"]
@@ -225,9 +248,9 @@ def explore(tier, seed):
 def stdin_ops(m, fam, content, hist):
     ok, out, rc = m.F(content)
     fam.case(nontrivial=ok and out != content)
-    case = {"oracle": "c16", "op": "stdin", "content_hex": content[:400].hex(), "history": hist}
+    case = {"oracle": "c16", "op": "stdin", "content_hex": content[:400].hex(), "history": hist, "encoding": m.encoding}
     # check on stdin agrees with stdin->stdout
-    rc2, o2, e2 = cli.run(["--mode=check"], stdin=content, hermetic_cfg=m.sb.empty_cfg)
+    rc2, o2, e2 = cli.run(["--mode=check"], stdin=content, hermetic_cfg=m.cfg)
     expect_ok = ok and out == content
     if (rc2 == 0) != expect_ok:
         fam.fail("C16", "check-stdin-disagrees-with-stdout-mode",
@@ -239,10 +262,10 @@ def stdin_ops(m, fam, content, hist):
 def step(m, fam, state, form, names, mode, hist, threads=None):
     m.materialise(state)
     args = m.args_for(form, names, mode)
-    rc, out, err = cli.run(args, hermetic_cfg=m.sb.empty_cfg, env=({"RAYON_NUM_THREADS": str(threads)} if threads else None))
+    rc, out, err = cli.run(args, hermetic_cfg=m.cfg, env=({"RAYON_NUM_THREADS": str(threads)} if threads else None))
     after = m.observe(state)
     targets = m.targets(form, state, names)
-    case = {"oracle": "c16", "op": mode, "form": form, "names": names, "threads": threads, "state": describe(state),
+    case = {"oracle": "c16", "op": mode, "form": form, "names": names, "threads": threads, "state": describe(state), "encoding": m.encoding,
             "state_hex": {n: (c.hex() if isinstance(c, bytes) and len(c) < 2000 else None) for n, c in state}, "history": hist}
     expected = {}
     failing = set()
@@ -305,11 +328,11 @@ def step(m, fam, state, form, names, mode, hist, threads=None):
         if good:
             for n in good:
                 os.utime(os.path.join(m.d, n), (OLD, OLD))
-            rc2, _, err2 = cli.run(m.args_for("path", good, "check"), hermetic_cfg=m.sb.empty_cfg)
+            rc2, _, err2 = cli.run(m.args_for("path", good, "check"), hermetic_cfg=m.cfg)
             if rc2 != 0:
                 fam.fail("C16", "check-rejects-what-files-mode-wrote", f"exit {rc2}: {err2[:300]!r}", case)
                 return False, None
-            rc3, _, _ = cli.run(m.args_for("path", good, "files"), hermetic_cfg=m.sb.empty_cfg)
+            rc3, _, _ = cli.run(m.args_for("path", good, "files"), hermetic_cfg=m.cfg)
             for n in good:
                 p = os.path.join(m.d, n)
                 if int(os.stat(p).st_mtime) != OLD or open(p, "rb").read() != expected[n]:
@@ -321,7 +344,7 @@ def step(m, fam, state, form, names, mode, hist, threads=None):
 def replay(case):
     fam = PyFamily("c16-replay")
     with cli.Sandbox("c16-replay") as sb:
-        m = Machine(sb, fam)
+        m = Machine(sb, fam, case.get("encoding"))
         if case.get("op") == "stdin":
             stdin_ops(m, fam, bytes.fromhex(case["content_hex"]), [])
         else:
